@@ -11,8 +11,11 @@
 
 namespace ys {
 
+// Polymorphic, but - like many interface-style classes - without a virtual
+// destructor (objects are owned through make_shared<K<c>>, whose deleter knows
+// the complete type). The typed world's hierarchies have virtual destructors.
 struct Obj {
-    virtual ~Obj() {
+    virtual void polymorphic_() {
     }
     int cls = 0;
     int alias = 0;
